@@ -3,6 +3,9 @@
    every APIServer method performs before it calls the WalletManager), written with explicit
    Go failure modes: [Ok | Err code | Panic site].  Slice indexing, slicing and
    strings.Repeat are Panic-producing operations, so that "never panics" is a statement.
+   38 request kinds: the 26 of the first round and the second group (binding / pool-coinbase creation, staking and
+   binding history, SendRawTransaction, network / pool / target queries, the block service, Wallets), whose address and
+   payload decoding is an oracle ([codecs]).
    Definitions only (proofs: Api/Proofs.v, theorems: Properties/C19.v).
    Strings are lists of byte codes (as in Codec/Amount.v). Length limits are the translated
    constants of Gen/Consts.v; error codes are the numeric gRPC status codes of api/errors.go
